@@ -136,7 +136,10 @@ Rake(C, S, amount) ==
   ELSE LET raw == RoundHalfEven(amount * C.rake.num, C.rake.den)
            raked == IF C.rake.cap >= 0 THEN MinI(raw, C.rake.cap) ELSE raw
        IN <<raked, amount - raked>>
-DivMod(a, d) == <<a \div d, a % d>>
+\* the engine's division of chips: whole chips with a remainder for integer chips; exact (no remainder) for fractional chip
+\* types - traces of such runs are in units fine enough that every quotient is a whole number of units (C.exact)
+Exact(C) == "exact" \in DOMAIN C /\ C.exact
+DivMod(C, a, d) == IF Exact(C) /\ a % d = 0 THEN <<a \div d, 0>> ELSE <<a \div d, a % d>>
 
 RECURSIVE PotLoop(_, _, _, _, _, _, _, _, _)
 PotLoop(C, S, contrib, pend, levels, k, prev, amount, pots) ==
@@ -194,11 +197,11 @@ RECURSIVE SubPotsOf(_, _, _, _)
 SubPotsOf(C, S, pots, k) ==
   IF k > Len(pots) THEN <<>>
   ELSE LET bc == BoardCount(C, S)
-           dm == DivMod(pots[k].unraked, bc)
+           dm == DivMod(C, pots[k].unraked, bc)
            perBoard(b) ==
              LET sub == dm[1] + (IF b = 1 THEN dm[2] ELSE 0)
                  tys == TypesInPlay(C, S, pots[k], b)
-                 dm2 == IF tys = <<>> THEN <<0, 0>> ELSE DivMod(sub, Len(tys))
+                 dm2 == IF tys = <<>> THEN <<0, 0>> ELSE DivMod(C, sub, Len(tys))
                  all == [j \in DOMAIN tys |-> <<dm2[1] + (IF j = 1 THEN dm2[2] ELSE 0), k, b, tys[j]>>]
              IN SelectSeq(all, LAMBDA x : x[1] # 0)
        IN Flat([b \in 1..bc |-> perBoard(b)]) \o SubPotsOf(C, S, pots, k + 1)
@@ -598,7 +601,7 @@ D_Push(C, S, A) ==
               ELSE LET str(i) == UpStr(C, S, i, sp[3], sp[4])
                        mx == Max({NoHand} \cup {str(pot.players[j]) : j \in DOMAIN pot.players})
                        win == SelectSeq(pot.players, LAMBDA i : str(i) = mx)
-                       dm == DivMod(amt, Len(win))
+                       dm == DivMod(C, amt, Len(win))
                    IN [i \in Pl(C) |-> IF InSeq(win, i) THEN dm[1] + (IF i = win[1] THEN dm[2] ELSE 0) ELSE 0]
       S1 == L([S EXCEPT !.subpots = Tail(@), !.fpots[k].unraked = @ - amt, !.bets = [i \in Pl(C) |-> @[i] + gain[i]]],
               Op("PUSH", 0, 0, <<>>, <<>>, gain, k, sp[3], sp[4]))
